@@ -12,7 +12,11 @@ ASSUMPTIONS = ["rows are identified by the inode number the OS reports for the e
 
 
 def mech(tier, seed):
-    return []
+    acts = ["NextRoot", "PickEntry", "EndOfDir", "Dequeue"]
+    if tier == "quick":
+        return [dict(module="Walker", cfg="Walker_q", workers=8, actions=acts)]
+    return [dict(module="Walker", cfg="Walker_q", workers=10, actions=acts),
+            dict(module="Walker", cfg="Walker_t", workers=12, actions=acts)]
 
 
 def generators(tier, seed):
